@@ -221,3 +221,202 @@ Example roundtrip_example :
   hush_words (ub_escape [[36; 39; 92; 98]; []; [35; 59; 38; 124; 32; 34]; [97; 45; 122]]) =
   Some [[36; 39; 92; 98]; []; [35; 59; 38; 124; 32; 34]; [97; 45; 122]].
 Proof. vm_compute. reflexivity. Qed.
+
+(* ================================================================== exec / exec0 / env over the console *)
+From TV Require Import Regex Channel ChannelLemmas ProofC02 ProofC03 Session ProofSession.
+Local Close Scope N_scope.
+
+Lemma plain_counts l : plain l -> count_N CR l = 0%nat /\ count_N LF l = 0%nat.
+Proof.
+  unfold plain. induction l as [|x l IH]; [auto|]. cbn [existsb count_N]. intros H.
+  apply orb_false_iff in H. destruct H as [Hx Hl]. destruct (IH Hl) as [A B]. rewrite A, B.
+  unfold line_special, mem_N in Hx. unfold CR, LF.
+  destruct (N.eqb_spec 13 x) as [<-|_]; [discriminate|]. destruct (N.eqb_spec 10 x) as [<-|_]; [discriminate|]. auto.
+Qed.
+
+Lemma ub_readback line : plain line -> readback_len (line ++ [CR]) = length (line ++ [CR; LF]).
+Proof.
+  intros H. destruct (plain_counts line H) as [A B]. rewrite readback_len_app. unfold readback_len at 1.
+  rewrite A, B, app_length. cbn. lia.
+Qed.
+
+Lemma plain_line args : Forall plain args -> plain (utf8_enc (ub_escape args)).
+Proof.
+  intros H. apply plain_enc. unfold ub_escape. apply plain_join. rewrite Forall_map.
+  eapply Forall_impl; [|exact H]. intros a. apply plain_quote.
+Qed.
+
+Lemma digits_ascii ds : all_digits ds -> ascii_noeol ds.
+Proof.
+  intros H. eapply Forall_impl; [|exact H]. cbn. intros d Hd. unfold is_digit in Hd. unfold CR, LF. lia.
+Qed.
+
+(* exec on any command but the crc32 special case: exactly the console output between the echoed command and
+   the next prompt, the status U-Boot prints for `echo $?`, and hush receives exactly the arguments *)
+Theorem ub_exec_exact args P c st1 st2 sts out ds :
+  insync c -> prompt c = Some (SLit P) -> P <> [] ->
+  Forall plain args -> ub_override args c = None ->
+  any_in (blacklist c) (utf8_enc (ub_escape args) ++ [CR]) = false ->
+  any_in (blacklist c) (ECHO_Q ++ [CR]) = false ->
+  wf_pend st1 -> cat st1 = (utf8_enc (ub_escape args) ++ [CR; LF]) ++ out ++ P -> prompt_only_at_end P out ->
+  wf_pend st2 -> cat st2 = (ECHO_Q ++ [CR; LF]) ++ (ds ++ [CR; LF]) ++ P ->
+  all_digits ds -> ds <> [] -> prompt_only_at_end P (ds ++ [CR; LF]) ->
+  exists c',
+    ub_exec args (st1 :: st2 :: sts) c = (XOk (dec_val ds) (text out), c', sts) /\
+    insync c' /\
+    wr (io c') = wr (io c) ++ (utf8_enc (ub_escape args) ++ [CR]) ++ (ECHO_Q ++ [CR]) /\
+    hush_words (utf8_enc (ub_escape args)) = Some (map utf8_enc args) /\
+    prompt c' = prompt c /\ blacklist c' = blacklist c.
+Proof.
+  intros Hin Hpr HP Hargs Hov Hb1 Hb2 Hw1 Hc1 Ho1 Hw2 Hc2 Hds Hne Ho2.
+  unfold ub_exec. rewrite Hov.
+  assert (St : py_int (text (ds ++ [CR; LF])) = Some (dec_val ds)).
+  { rewrite text_line by (apply digits_ascii; exact Hds). apply py_int_status; assumption. }
+  destruct (exec_exact (utf8_enc (ub_escape args)) P c st1 st2 sts
+              (utf8_enc (ub_escape args) ++ [CR; LF]) out (ECHO_Q ++ [CR; LF]) (ds ++ [CR; LF]) (dec_val ds)
+              Hin Hpr HP Hb1 Hb2 Hw1 Hc1 (eq_sym (ub_readback _ (plain_line args Hargs))) Ho1 Hw2 Hc2 eq_refl Ho2 St)
+    as (c' & E & A & B & C & D).
+  exists c'. split; [exact E|]. split; [exact A|]. split; [exact B|].
+  split; [apply escape_sent_roundtrip; exact Hargs | auto].
+Qed.
+
+(* exec0 raises CommandFailure iff the status is not 0; test() is status == 0 *)
+Theorem ub_exec0_iff args sts c st out c' sts' :
+  ub_exec args sts c = (XOk st out, c', sts') ->
+  ub_exec0 args sts c = (if (st =? 0)%Z then X0Ok out else X0Failure st, c', sts').
+Proof. intros H. unfold ub_exec0. rewrite H. reflexivity. Qed.
+
+(* ---- the crc32 / "=> " special case *)
+Lemma no_lf_split o b c :
+  Forall (fun x => x <> LF) o ->
+  (o ++ [CR]) ++ LF :: UB_ARROW = b ++ c -> c <> [] -> is_suffix (LF :: UB_ARROW) b = false.
+Proof.
+  intros Ho E Hc. destruct (is_suffix (LF :: UB_ARROW) b) eqn:Es; [|reflexivity]. exfalso.
+  apply is_suffix_spec in Es. destruct Es as [t ->].
+  assert (L : length t <= length (o ++ [CR])).
+  { apply (f_equal (@length N)) in E. rewrite !app_length in E. cbn [length] in E.
+    assert (0 < length c)%nat by (destruct c; [congruence | cbn; lia]). rewrite app_length. cbn [length]. lia. }
+  assert (E2 : t ++ ((LF :: UB_ARROW) ++ c) = (o ++ [CR]) ++ LF :: UB_ARROW) by (rewrite app_assoc; symmetry; exact E).
+  destruct (app_split_len t _ _ _ E2 L) as (q & Eq & Er).
+  destruct q as [|x q'].
+  - apply (f_equal (@length N)) in Er. cbn [app length] in Er. rewrite app_length in Er.
+    assert (0 < length c)%nat by (destruct c; [congruence | cbn; lia]). lia.
+  - cbn [app] in Er. injection Er as Ex _. subst x.
+    assert (Hin : In LF (o ++ [CR])) by (rewrite Eq; apply in_or_app; right; left; reflexivity).
+    apply in_app_or in Hin. destruct Hin as [Hin | [Hin | []]].
+    + rewrite Forall_forall in Ho. exact (Ho _ Hin eq_refl).
+    + discriminate.
+Qed.
+
+Theorem ub_exec_exact_crc32 args c st1 st2 sts o ds :
+  insync c -> prompt c = Some (SLit UB_ARROW) ->
+  Forall plain args -> ub_override args c = Some (LF :: UB_ARROW) ->
+  any_in (blacklist c) (utf8_enc (ub_escape args) ++ [CR]) = false ->
+  any_in (blacklist c) (ECHO_Q ++ [CR]) = false ->
+  (* the console prints one line containing "==> " and ends it with CR LF *)
+  ascii_noeol o ->
+  wf_pend st1 -> cat st1 = (utf8_enc (ub_escape args) ++ [CR; LF]) ++ (o ++ [CR; LF]) ++ UB_ARROW ->
+  wf_pend st2 -> cat st2 = (ECHO_Q ++ [CR; LF]) ++ (ds ++ [CR; LF]) ++ UB_ARROW ->
+  all_digits ds -> ds <> [] -> prompt_only_at_end UB_ARROW (ds ++ [CR; LF]) ->
+  exists c',
+    ub_exec args (st1 :: st2 :: sts) c = (XOk (dec_val ds) (text (o ++ [CR; LF])), c', sts) /\ insync c'.
+Proof.
+  intros Hin Hpr Hargs Hov Hb1 Hb2 Ho Hw1 Hc1 Hw2 Hc2 Hds Hne Ho2.
+  unfold ub_exec. rewrite Hov.
+  assert (St : py_int (text (ds ++ [CR; LF])) = Some (dec_val ds)).
+  { rewrite text_line by (apply digits_ascii; exact Hds). apply py_int_status; assumption. }
+  destruct (ascii_noeol_parts o Ho) as (_ & _ & HnoLF).
+  assert (R1 : (o ++ [CR; LF]) ++ UB_ARROW = (o ++ [CR]) ++ LF :: UB_ARROW) by (rewrite <- !app_assoc; reflexivity).
+  assert (OT : only_tail (prompt_split (Some (SLit (LF :: UB_ARROW)))) ((o ++ [CR]) ++ LF :: UB_ARROW) (length (o ++ [CR]))).
+  { apply only_tail_literal; [discriminate|]. intros b c0. apply no_lf_split. exact HnoLF. }
+  assert (Hr1 : (o ++ [CR]) ++ LF :: UB_ARROW <> []) by (destruct o; discriminate).
+  rewrite R1 in Hc1.
+  destruct (exec_exact_general (utf8_enc (ub_escape args)) (Some (LF :: UB_ARROW)) UB_ARROW c st1 st2 sts
+              (utf8_enc (ub_escape args) ++ [CR; LF]) ((o ++ [CR]) ++ LF :: UB_ARROW) (length (o ++ [CR]))
+              (ECHO_Q ++ [CR; LF]) (ds ++ [CR; LF]) (dec_val ds)
+              Hin Hpr ltac:(discriminate) Hb1 Hb2 Hw1 Hc1 (eq_sym (ub_readback _ (plain_line args Hargs))) Hr1 OT
+              Hw2 Hc2 eq_refl Ho2 St) as (c' & E & A & _).
+  exists c'. split; [|exact A]. rewrite E. rewrite firstn_app_exact, text_line_cr, text_line by exact Ho.
+  unfold post_out. rewrite is_suffix_app.
+  assert (D : drop_last 1 (o ++ [CR]) = o).
+  { pose proof (take_last_app_drop 1 (o ++ [CR])) as T. rewrite take_last_app in T by (cbn; lia).
+    change (take_last 1 [CR]) with [CR] in T. apply app_inv_tail in T. exact T. }
+  rewrite D. reflexivity.
+Qed.
+
+(* ---- env: setting a variable and reading it back *)
+Lemma utf8_enc_ascii l : Forall (fun b => (b < 128)%N) l -> utf8_enc l = l.
+Proof.
+  induction 1 as [|a l Ha _ IH]; [reflexivity|]. unfold utf8_enc in *. cbn [flat_map]. rewrite IH.
+  rewrite enc1_ascii by exact Ha. reflexivity.
+Qed.
+
+Lemma prompt_only_at_end_nil P : P <> [] -> prompt_only_at_end P [].
+Proof.
+  intros HP b c E Hc. cbn [app] in E. destruct (is_suffix P b) eqn:Es; [|reflexivity]. exfalso.
+  apply is_suffix_spec in Es. destruct Es as [t ->]. apply (f_equal (@length N)) in E.
+  rewrite !app_length in E. assert (0 < length c) by (destruct c; [congruence | cbn; lia]). lia.
+Qed.
+
+Lemma drop_last_one (l : list N) x : drop_last 1 (l ++ [x]) = l.
+Proof.
+  pose proof (take_last_app_drop 1 (l ++ [x])) as T0. rewrite take_last_app in T0 by (cbn; lia).
+  change (take_last 1 [x]) with [x] in T0. apply app_inv_tail in T0. exact T0.
+Qed.
+
+Definition ZERO : list N := [48%N].
+
+Theorem ub_env_roundtrip var v P c s1 s2 s3 s4 sts :
+  insync c -> prompt c = Some (SLit P) -> P <> [] ->
+  plain var -> plain v -> ascii_noeol var -> ascii_noeol v ->
+  let setline := utf8_enc (ub_escape [SETENV; var; v]) in
+  let getline := utf8_enc (ub_escape [PRINTENV; var]) in
+  any_in (blacklist c) (setline ++ [CR]) = false -> any_in (blacklist c) (getline ++ [CR]) = false ->
+  any_in (blacklist c) (ECHO_Q ++ [CR]) = false ->
+  prompt_only_at_end P (ZERO ++ [CR; LF]) ->
+  prompt_only_at_end P ((var ++ [61%N] ++ v) ++ [CR; LF]) ->
+  (* setenv prints nothing and succeeds; printenv prints name=value *)
+  wf_pend s1 -> cat s1 = (setline ++ [CR; LF]) ++ [] ++ P ->
+  wf_pend s2 -> cat s2 = (ECHO_Q ++ [CR; LF]) ++ (ZERO ++ [CR; LF]) ++ P ->
+  wf_pend s3 -> cat s3 = (getline ++ [CR; LF]) ++ ((var ++ [61%N] ++ v) ++ [CR; LF]) ++ P ->
+  wf_pend s4 -> cat s4 = (ECHO_Q ++ [CR; LF]) ++ (ZERO ++ [CR; LF]) ++ P ->
+  exists c', ub_env var (Some v) (s1 :: s2 :: s3 :: s4 :: sts) c = (X0Ok v, c', sts) /\ insync c'.
+Proof.
+  intros Hin Hpr HP Pvar Pv Avar Av setline getline Hb1 Hb2 Hb3 Hz Hval W1 C1 W2 C2 W3 C3 W4 C4.
+  assert (Pset : plain SETENV) by reflexivity. assert (Pget : plain PRINTENV) by reflexivity.
+  assert (Dz : all_digits ZERO) by (repeat constructor).
+  assert (Ov : forall rest, ub_override (SETENV :: rest) c = None).
+  { intros rest. unfold ub_override. change (list_N_eqb SETENV CRC32) with false. reflexivity. }
+  assert (Ov2 : forall rest c0, ub_override (PRINTENV :: rest) c0 = None).
+  { intros rest c0. unfold ub_override. change (list_N_eqb PRINTENV CRC32) with false. reflexivity. }
+  destruct (ub_exec_exact [SETENV; var; v] P c s1 s2 (s3 :: s4 :: sts) [] ZERO Hin Hpr HP
+              ltac:(repeat constructor; assumption) (Ov _) Hb1 Hb3 W1 C1 (prompt_only_at_end_nil P HP)
+              W2 C2 Dz ltac:(discriminate) Hz) as (c1 & E1 & Hin1 & _ & _ & Pr1 & Bl1).
+  unfold ub_env. rewrite (ub_exec0_iff _ _ _ _ _ _ _ E1). change (dec_val ZERO =? 0)%Z with true. cbv iota.
+  destruct (ub_exec_exact [PRINTENV; var] P c1 s3 s4 sts ((var ++ [61%N] ++ v) ++ [CR; LF]) ZERO Hin1
+              ltac:(congruence) HP ltac:(repeat constructor; assumption) (Ov2 _ _)
+              ltac:(rewrite Bl1; exact Hb2) ltac:(rewrite Bl1; exact Hb3) W3 C3 Hval W4 C4 Dz ltac:(discriminate) Hz)
+    as (c2 & E2 & Hin2 & _).
+  rewrite (ub_exec0_iff _ _ _ _ _ _ _ E2). change (dec_val ZERO =? 0)%Z with true. cbv iota.
+  exists c2. split; [|exact Hin2]. f_equal. f_equal. f_equal.
+  assert (A : ascii_noeol (var ++ [61%N] ++ v)).
+  { apply Forall_app. split; [exact Avar|]. apply Forall_app. split; [|exact Av].
+    repeat constructor; unfold CR, LF; lia. }
+  rewrite text_line by exact A. unfold env_slice.
+  replace ((var ++ [61%N] ++ v) ++ [LF]) with ((var ++ [61%N]) ++ (v ++ [LF])) by (rewrite <- !app_assoc; reflexivity).
+  replace (length var + 1) with (length (var ++ [61%N])) by (rewrite app_length; reflexivity).
+  rewrite skipn_app_exact. apply drop_last_one.
+Qed.
+
+(* the hypotheses of the exec / env theorems are met by a real exchange; the result computed by the model *)
+Example ub_env_example :
+  let P := UB_ARROW in
+  let sl := utf8_enc (ub_escape [SETENV; [102; 111; 111]; [97; 39; 32; 36; 98]])%N in
+  let gl := utf8_enc (ub_escape [PRINTENV; [102; 111; 111]])%N in
+  fst (fst (ub_env [102; 111; 111]%N (Some [97; 39; 32; 36; 98]%N)
+     [ [(0%Z, firstn 7 (sl ++ [CR; LF])); (3%Z, skipn 7 (sl ++ [CR; LF]) ++ firstn 2 P); (9%Z, skipn 2 P)];
+       [(0%Z, (ECHO_Q ++ [CR; LF]) ++ (ZERO ++ [CR; LF]) ++ P)];
+       [(0%Z, (gl ++ [CR; LF])); (1%Z, ([102; 111; 111; 61; 97; 39; 32; 36; 98]%N ++ [CR; LF]) ++ P)];
+       [(0%Z, (ECHO_Q ++ [CR; LF]) ++ (ZERO ++ [CR; LF]) ++ P)] ]
+     (ub_chan P []))) = X0Ok [97; 39; 32; 36; 98]%N.
+Proof. vm_compute. reflexivity. Qed.
